@@ -1,9 +1,149 @@
 import SigmaVerif.Spec.SStr
+import SigmaVerif.Lemmas.SStr
+/-!
+# C05 — `SigmaString`: conversion to a target-language literal, regular-expression form, plain
+form, field names
+
+Property theorems only; helper lemmas and auxiliary definitions (`quoteTailOk`, `noPh`, `bsOk`,
+`fieldWf`, `atoms`, the example configurations `stdConv`, `stdStr`) are in `SigmaVerif.Lemmas.SStr`.
+-/
 namespace SigmaVerif.Props.C05
 open SigmaVerif.SStr SigmaVerif.SStrSpec
 
-/-- the plain form of the unchanged code is not injective: a literal backslash in front of a
-wildcard is written `\*`, which reads back as a literal asterisk -/
-theorem parse_toPlain_lossy : parse (toPlain [.lit '\\', .star]) ≠ [.lit '\\', .star] := by decide
+/-! ## 1. The emitted literal, read back by the target language, is the source -/
+
+/-- For every Sigma string (any length) and every well-formed escaping configuration, `convert`'s
+output decodes — by the target language's own token rules — to exactly the source's literal
+characters and wildcard positions (minus the filtered characters). -/
+theorem convert_decodes (k : Conv) (hk : convWf k = true) (s : SStr) (t : Str)
+    (h : convert k s = .ok t) : decode k t = some (filtered k s) := by
+  obtain ⟨e, W⟩ := wf_of_convWf hk
+  exact decodeBody_convert W s t h _ (Nat.lt_succ_self _)
+
+example : convWf stdConv = true := by decide
+example (custom : Str) : convWf (regexConv custom) = true := regexConv_wf custom
+example : convert stdConv [.lit 'a', .star, .lit '*', .lit '\\', .qm] = .ok "a*\\*\\\\?".toList := by
+  decide
+example : decode stdConv "a*\\*\\\\?".toList = some [.lit 'a', .star, .lit '*', .lit '\\', .qm] :=
+  convert_decodes stdConv (by decide) [.lit 'a', .star, .lit '*', .lit '\\', .qm] _ (by decide)
+
+/-! ## 2. "The escape character is itself escaped" is necessary -/
+
+/-- A backend that does not list its escape character among the escaped characters (every other
+conjunct of `convWf` holds: adding `\` to `addEscaped` makes the configuration well-formed) emits a
+literal that reads back differently: the source `\` followed by a wildcard becomes a literal `*`. -/
+theorem convert_escape_needed :
+    ∃ (k : Conv) (s : SStr) (t : Str),
+      k = { esc := some ['\\'], multi := some ['*'], single := some ['?'], addEscaped := ['"'],
+            filter := [] } ∧
+      s = [.lit '\\', .star] ∧
+      convWf { k with addEscaped := '\\' :: k.addEscaped } = true ∧
+      convert k s = .ok t ∧ decode k t = some [.lit '*'] ∧ decode k t ≠ some (filtered k s) :=
+  ⟨_, _, ['\\', '*'], rfl, rfl, by decide, by decide, by decide, by decide⟩
+
+/-- same defect with an ordinary character: `\a` (two source characters) reads back as `a` -/
+example :
+    let k : Conv := { esc := some ['\\'], multi := some ['*'], single := some ['?'],
+                      addEscaped := ['"'], filter := [] }
+    convert k [.lit '\\', .lit 'a'] = .ok ['\\', 'a'] ∧ decode k ['\\', 'a'] = some [.lit 'a'] := by
+  decide
+
+/-! ## 3. Quoted literals -/
+
+/-- The quoted literal is read back exactly; in particular no source character terminates the
+literal early.  `quoteTailOk` is an extra hypothesis that `quoteWf` lacks
+(see `quoted_needs_tailOk`). -/
+theorem quoted_decodes (c : StrCfg) (hk : convWf c.conv = true)
+    (hq : quoteWf c.conv c.quote = true) (hx : quoteTailOk c.conv c.quote = true)
+    (s : SStr) (t : Str) (h : convertValueStr c true s = .ok t) :
+    decodeQuoted c.conv c.quote t = some (filtered c.conv s) := by
+  obtain ⟨e, W⟩ := wf_of_convWf hk
+  obtain ⟨qc, hqc, Q⟩ := qwf_of W hq hx
+  unfold convertValueStr at h
+  cases hr : convert c.conv s with
+  | error err => simp [hr] at h
+  | ok t' =>
+    simp only [hr, if_true, Except.ok.injEq] at h
+    subst h
+    unfold decodeQuoted
+    rw [List.append_assoc, stripPrefix_append, hqc]
+    exact decodeQuotedBody_convert W Q s t' hr _ (by simp)
+
+/-- without `quoteTailOk` the statement is false: multi token `."`, single token `.`, quote `"`
+satisfy `convWf` and `quoteWf`, but the quoted form `"."` of the pattern `?` does not read back -/
+theorem quoted_needs_tailOk :
+    ∃ (c : StrCfg) (s : SStr) (t : Str),
+      convWf c.conv = true ∧ quoteWf c.conv c.quote = true ∧
+      convertValueStr c true s = .ok t ∧ decodeQuoted c.conv c.quote t ≠ some (filtered c.conv s) :=
+  ⟨{ quote := ['"'], esc := some ['\\'], multi := some ['.', '"'], single := some ['.'],
+     addEscaped := ['\\'], filter := [] }, [.qm], ['"', '.', '"'],
+   by decide, by decide, by decide, by decide⟩
+
+example : convWf stdStr.conv = true ∧ quoteWf stdStr.conv stdStr.quote = true ∧
+    quoteTailOk stdStr.conv stdStr.quote = true := by decide
+example : decodeQuoted stdStr.conv stdStr.quote "\"a\\\"b*\"".toList
+    = some [.lit 'a', .lit '"', .lit 'b', .star] :=
+  quoted_decodes stdStr (by decide) (by decide) (by decide) [.lit 'a', .lit '"', .lit 'b', .star] _
+    (by decide)
+
+/-! ## 4. The regular-expression form matches exactly what the wildcard pattern matches -/
+
+/-- (`hc` holds for every `custom`, see `regexConv_wf`; it is kept for uniformity and not used.) -/
+theorem toRegex_glob (custom : Str) (_hc : convWf (regexConv custom) = true) (s : SStr) (r : Str)
+    (h : toRegex custom s = .ok r) (x : Str) : reMatch r x = some (glob s x) := by
+  unfold reMatch
+  rw [reRead_convert custom s r h _ (Nat.lt_succ_self _)]
+  simp [reMatchAtoms_atoms s x (convert_noPh s r h)]
+
+example : toRegex ['/'] [.lit 'a', .lit '.', .star, .lit '/', .qm] = .ok "a\\..*\\/.".toList := by
+  decide
+example (x : Str) : reMatch "a\\..*\\/.".toList x
+    = some (glob [.lit 'a', .lit '.', .star, .lit '/', .qm] x) :=
+  toRegex_glob ['/'] (regexConv_wf _) _ _ (by decide) x
+
+/-! ## 5. Plain form and re-parsing -/
+
+/-- `parse ∘ toPlain` is the identity on strings without placeholders in which no literal `\` is
+immediately followed by a literal `\`, `*`, `?` or a wildcard. -/
+theorem parse_toPlain_partial (s : SStr) (hph : noPh s = true) (hbs : bsOk s = true) :
+    parse (toPlain s) = s :=
+  (parseAux_toPlain s hph hbs).1
+
+example : noPh [.lit 'a', .lit '\\', .lit 'b', .star, .lit '*', .lit '\\'] = true ∧
+    bsOk [.lit 'a', .lit '\\', .lit 'b', .star, .lit '*', .lit '\\'] = true := by decide
+
+/-- the full statement is false: the plain form is not injective (`\` followed by a wildcard) -/
+theorem parse_toPlain_lossy : parse (toPlain [.lit '\\', .star]) ≠ [.lit '\\', .star] := by
+  decide
+
+/-- `toPlain ∘ parse` followed by `parse` is NOT the identity in general: `\\*` -/
+theorem toPlain_parse_lossy :
+    parse (toPlain (parse ['\\', '\\', '*'])) ≠ parse ['\\', '\\', '*'] := by
+  decide
+
+/-- … it is on the inputs whose parse has no literal `\` in front of a special part -/
+theorem toPlain_parse (x : Str) (h : bsOk (parse x) = true) :
+    parse (toPlain (parse x)) = parse x :=
+  parse_toPlain_partial _ (parse_noPh _ _ _) h
+
+example : bsOk (parse "a\\*b\\c*\\".toList) = true := by decide
+
+/-! ## 6. Field names -/
+
+/-- the rendered field name is read back exactly, provided the first character of the escape string
+is itself among the escaped characters (`fieldWf`) -/
+theorem field_roundtrip (c : FieldCfg) (hwf : fieldWf c = true) (quoted : Bool) (f : Str) :
+    decodeField c quoted (escapeAndQuoteField c quoted f) = some f :=
+  decodeField_escapeAndQuoteField c hwf quoted f
+
+example : fieldWf { escape := some ['\\'], escapeChars := [' ', '\\'], escapeQuote := true,
+                    quote := some ['`'] } = true := by decide
+
+/-- without "the escape character is among the escaped characters" it fails -/
+theorem field_escape_needed :
+    ∃ (c : FieldCfg) (f : Str),
+      c = { escape := some ['\\'], escapeChars := [' '], escapeQuote := false, quote := none } ∧
+      decodeField c false (escapeAndQuoteField c false f) ≠ some f :=
+  ⟨_, ['\\', 'a'], rfl, by decide⟩
 
 end SigmaVerif.Props.C05
